@@ -149,6 +149,67 @@ def run(chk, repo: Repo):
                        "were computed from, so gradient and log-density never refer to different parameter values", floor=2)
     from ..cachecoh import cache_coherence
     cache_coherence(chk, repo, "C03-R7", ("cuqi/distribution/", "cuqi/likelihood/", "cuqi/density/"))
+    chk.rule("C03-R8", "chain rule, structural part: every square root of a point-dependent quantity in an analytic gradient is the square root of a "
+                       "quantity that occurs under a square root in the same class's log-density (d sqrt(R) = R'/(2 sqrt(R)) introduces no other radicand)", floor=1)
+    _r8(chk, repo)
+
+
+def _r8(chk, repo):
+    from .common import canon_fn
+    from ..pathtable import walk_paths
+    from ..canon import clone as _clone
+    dens = repo.cls(DENSITY)
+    n = 0
+
+    class _Ren(ast.NodeTransformer):
+        def __init__(self, a):
+            self.a = a
+
+        def visit_Name(self, nd):
+            return ast.copy_location(ast.Name(id="_x", ctx=nd.ctx), nd) if nd.id == self.a else nd
+
+    def radicands(ci, fn):
+        """x-dependent radicands of the closed forms returned by fn (point parameter renamed _x); None if some path is not decidable"""
+        x = func_params(fn)[1] if len(func_params(fn)) > 1 else None
+        if x is None:
+            return None
+        out = set()
+        for kind, res in walk_paths(canon_fn(repo, ci, fn, 1), {}, pn, skip_loops=True, limit=128):
+            if kind in ("unknown", "loop"):
+                return None
+            if kind != "return":
+                continue
+            e = _Ren(x).visit(_clone(res))
+            for c in ast.walk(e):
+                r = None
+                if isinstance(c, ast.Call) and (call_name(c) or "").split(".")[-1] == "sqrt" and len(c.args) == 1:
+                    r = c.args[0]
+                elif isinstance(c, ast.BinOp) and isinstance(c.op, ast.Pow) and isinstance(c.right, ast.Constant) and c.right.value in (0.5, -0.5):
+                    r = c.left
+                if r is not None and any(isinstance(z, ast.Name) and z.id == "_x" for z in ast.walk(r)):
+                    out.add(pn(r))
+        return out
+    for ci in repo.subclasses(dens):
+        if not ci.module.rel.startswith("cuqi/distribution/"):
+            continue
+        lp = ci.methods.get("logpdf")
+        gf = ci.methods.get("_gradient") or ci.methods.get("gradient")
+        if lp is None or gf is None:
+            continue
+        rg = radicands(ci, gf)
+        if not rg:
+            continue            # no point-dependent square root in the gradient (or not decidable): outside this rule
+        rl = radicands(ci, lp)
+        n += 1
+        if rl is None:
+            chk.unknown("C03-R8", f"{ci.qual}.{gf.name}/radicands", site(repo, gf), "log-density paths not decidable", gf)
+            continue
+        extra = sorted(rg - rl)
+        chk.add("C03-R8", f"{ci.qual}.{gf.name}/radicands", not extra, site(repo, gf), f"radicands {sorted(rg)} all occur in logpdf",
+                f"the gradient takes the square root of `{extra}`, the log-density of `{sorted(rl)}`: the gradient is not the derivative of this log-density "
+                f"(the two agree only where the difference is negligible)", gf)
+    if n < 1:
+        raise AnchorError("no analytic gradient with a point-dependent square root found (SmoothedLaplace expected)")
 
 
 # ------------------------------------------------------------------------------------------------ R1
@@ -461,6 +522,30 @@ def _r5(chk, repo):
     rec = any("[" in t and f"{f}(" in t and t.endswith(f"/{eps}") for t, _ in stmts(repo, None, ag))     # landmark: a difference quotient is stored per component
     chk.decide("C03-R5", "cuqi/utilities/_utilities.py:approx_gradient", b is not None, rec, site(repo, ag), "forward difference (f(x+eps e_i) - f(x))/eps per component, perturbation reset",
             "approx_gradient is not the component-wise forward difference of its function argument", ag)
+    # scalar branch: the closed form returned for a plain number must be a difference quotient whose divisor IS the step added to the point
+    from ..pathtable import walk_paths
+    from .common import canon_fn as _cf
+    agv = _cf(repo, None, ag, 1)
+    outs = [(k_, r_) for k_, r_ in walk_paths(agv, {pn(f"isinstance({x},Number)"): True}, pn, skip_loops=True)]
+    probs, und = [], []
+    for k_, r_ in outs:
+        if k_ != "return":
+            und.append(f"{k_} {r_ if isinstance(r_, str) else ''}")
+            continue
+        e = r_
+        okq = isinstance(e, ast.BinOp) and isinstance(e.op, ast.Div) and isinstance(e.left, ast.BinOp) and isinstance(e.left.op, ast.Sub) \
+            and isinstance(e.left.left, ast.Call) and pn(e.left.left.func) == f and len(e.left.left.args) == 1 \
+            and isinstance(e.left.right, ast.Call) and pn(e.left.right) == pn(f"{f}({x})")
+        if okq:
+            a0 = e.left.left.args[0]
+            step = a0.right if isinstance(a0, ast.BinOp) and isinstance(a0.op, ast.Add) and pn(a0.left) == x else (a0.left if isinstance(a0, ast.BinOp) and isinstance(a0.op, ast.Add) and pn(a0.right) == x else None)
+            okq = step is not None and pn(step) == pn(e.right)
+            if not okq:
+                probs.append(f"the point is moved by `{pn(step) if step is not None else pn(a0)}` but the difference is divided by `{pn(e.right)}`")
+        else:
+            probs.append(f"scalar result `{pn(e)[:100]}` is not (f(x + h) - f(x)) / h")
+    chk.decide("C03-R5", "cuqi/utilities/_utilities.py:approx_gradient/scalar", not probs and not und and bool(outs), bool(probs) or (bool(outs) and not und), site(repo, ag),
+               "scalar point: (f(x+h) - f(x))/h with one and the same h", "; ".join(probs or und), ag)
     lk = repo.cls("cuqi/likelihood/_likelihood.py:Likelihood")
     for name, want in (("enable_FD", "self.distribution.enable_FD(epsilon)"), ("disable_FD", "self.distribution.disable_FD()")):
         fn = repo.method(lk, name)[1]
